@@ -61,8 +61,11 @@ def parallel_table(facts, paths, v, K, time_field):
     if v[0] == "loop" and v[2][0] == "local" and v[3][0] == "call" and \
             (v[3][1].startswith("alloc::vec::Vec::<T>::new") or v[3][1].startswith("alloc::vec::Vec::<T>::with_capacity")):
         hdr = v[1]
-        sources = (("call", "core::slice::<impl [T]>::iter", (("&", K),)),
-                   ("call", "<&'a alloc::vec::Vec<T, A> as core::iter::traits::collect::IntoIterator>::into_iter", (("&", K),)))
+        refs = [("&", K)] + ([K[1]] if K[0] == "deref" else [])     # &K, or the reference K was reached through
+        sources = tuple(("call", fn_, (r,)) for r in refs for fn_ in (
+            "core::slice::<impl [T]>::iter",
+            "<&'a alloc::vec::Vec<T, A> as core::iter::traits::collect::IntoIterator>::into_iter",
+            "core::slice::iter::<impl core::iter::traits::collect::IntoIterator for &'a [T]>::into_iter"))
         n_iter = 0
         for p in paths:
             pushes = [e for e in p.events if e["kind"] == "call" and e["descs"] and e["descs"][0] == ("&mut", v)]
@@ -84,7 +87,24 @@ def parallel_table(facts, paths, v, K, time_field):
             elif pushes:
                 return False
         return n_iter >= 1
+    # form C: a private function of the workspace applied to (a slice of) K that is itself such a table of its argument
+    if v[0] == "call" and len(v[2]) == 1 and _depth[0] < 3:
+        arg = v[2][0]
+        while arg[0] == "call" and arg[1].rsplit("::", 1)[-1] in ("as_slice", "deref", "as_ref", "borrow") and len(arg[2]) == 1:
+            arg = arg[2][0]
+        hb = next((b for b in facts.bodies.values() if b["path"] == v[1] and b["def_kind"] != "Closure"), None)
+        if arg == ("&", K) and hb is not None and hb.get("arg_count") == 1:
+            _depth[0] += 1
+            try:
+                hp = pse.Engine(facts).run(hb)
+                rets = [q for q in hp if q.outcome == "return"]
+                return len(rets) == 1 and parallel_table(facts, hp, rets[0].ret, ("deref", ("param", 1)), time_field)
+            finally:
+                _depth[0] -= 1
     return False
+
+
+_depth = [0]
 
 
 def comparator_ok(ctx, facts, rule, callterm, site, tba_roles_kf):
@@ -241,9 +261,12 @@ def check_generated_build(ctx, facts, body, rule="R3"):
             bts = [v for x in subterms(ret) if x[0] == "agg" and x[1] == "adt" for nme, v in x[4] if v == want]
             okb = len(bts) == 1
         else:
-            bts = [v for x in subterms(ret) if x[0] == "agg" and x[1] == "adt" for nme, v in x[4]
-                   if mentions(v, lambda y: y[0] == "call" and y[1] == "core::iter::traits::iterator::Iterator::collect")
-                   or (v[0] == "loop" and v[2][0] == "local" and v[2][2] == "alloc::vec::Vec<f32>")]
+            # the Vec<f32> field(s) of the returned timeline struct
+            bts = []
+            for x in subterms(ret):
+                if x[0] == "agg" and x[1] == "adt" and x[2] in facts.adts:
+                    tys = {f["name"]: f["ty"] for f in facts.adts[x[2]]["variants"][0]["fields"]}
+                    bts += [v for nme, v in x[4] if tys.get(nme) == "alloc::vec::Vec<f32>"]
             okb = bool(bts) and all((mentions(v, lambda y: y == Kv) and not _mentions_outside(v, sorted_term(Kv)[1], Kv))
                                     or v[0] == "loop" for v in bts)
         ctx.ob(rule, inst + "/boundary-same-args", okb,
